@@ -95,6 +95,12 @@ func readersRun(env *Env, out *h.Out, rng *rand.Rand, nblocks, nreaders, run int
 
 	var blocks sync.Map // height -> *Block
 
+	// The data of a merged temp database is removed by Center.cleanRemoved only after three more
+	// merge ticks (6 s in production) "for safe concurrency access": the code assumes that no read
+	// is in flight that long. The driver merges every few hundred microseconds, so it states the
+	// assumption explicitly: cleanRemoved(3) runs while no read is in flight.
+	var inflight sync.RWMutex
+
 	var stop atomic.Bool
 
 	var wg sync.WaitGroup
@@ -212,7 +218,11 @@ func readersRun(env *Env, out *h.Out, rng *rand.Rand, nblocks, nreaders, run int
 					return
 				}
 			case 3:
-				if err := db.Center.VerifCleanRemoved(r.Intn(4)); err != nil {
+				inflight.Lock()
+				err := db.Center.VerifCleanRemoved(3)
+				inflight.Unlock()
+
+				if err != nil {
 					fail(errors.WithMessage(err, "clean removed"))
 
 					return
@@ -235,107 +245,117 @@ func readersRun(env *Env, out *h.Out, rng *rand.Rand, nblocks, nreaders, run int
 			for !stop.Load() && n < maxReads {
 				n++
 
-				switch w := r.Intn(8); {
-				case w < 4:
-					k := keys[w]
-					lo := done[k].Load()
-					st, found, err := db.Center.State(RealKey(k))
-					hi := started[k].Load()
+				inflight.RLock()
+				ok := func() bool {
+					defer inflight.RUnlock()
 
-					if err != nil {
-						fail(errors.WithMessagef(err, "State(%s)", k))
+					switch w := r.Intn(8); {
+					case w < 4:
+						k := keys[w]
+						lo := done[k].Load()
+						st, found, err := db.Center.State(RealKey(k))
+						hi := started[k].Load()
 
-						return
-					}
-
-					got := -1
-					if found {
-						got = int(st.Height().Int64())
-					}
-
-					out.Emit(rEvent{A: "R", R: ri, K: k, Got: got, Lo: int(lo), Hi: int(hi)})
-				case w == 4:
-					lo := done["LAST"].Load()
-					m, found, err := db.Center.LastBlockMap()
-					hi := started["LAST"].Load()
-
-					if err != nil {
-						fail(errors.WithMessage(err, "LastBlockMap"))
-
-						return
-					}
-
-					got := -1
-					if found {
-						got = int(m.Manifest().Height().Int64())
-					}
-
-					out.Emit(rEvent{A: "R", R: ri, K: "LBM", Got: got, Lo: int(lo), Hi: int(hi)})
-				case w == 5:
-					lo := done[KeySUF].Load()
-					p, found, err := db.Center.LastSuffrageProof()
-					hi := started[KeySUF].Load()
-
-					if err != nil {
-						fail(errors.WithMessage(err, "LastSuffrageProof"))
-
-						return
-					}
-
-					got := -1
-					if found {
-						got = int(p.Map().Manifest().Height().Int64())
-					}
-
-					out.Emit(rEvent{A: "R", R: ri, K: "LSP", Got: got, Lo: int(lo), Hi: int(hi)})
-				case w == 6:
-					lo := done["LAST"].Load()
-					if lo < 0 {
-						continue
-					}
-
-					bi, _ := blocks.Load(int(lo))
-					b := bi.(*Block) //nolint:forcetypeassert //...
-					got := int(lo)
-
-					for _, op := range b.Ops {
-						found, err := db.Center.ExistsKnownOperation(op)
 						if err != nil {
-							fail(errors.WithMessage(err, "ExistsKnownOperation"))
+							fail(errors.WithMessagef(err, "State(%s)", k))
 
-							return
+							return false
 						}
 
-						if !found {
-							got = -1
+						got := -1
+						if found {
+							got = int(st.Height().Int64())
 						}
+
+						out.Emit(rEvent{A: "R", R: ri, K: k, Got: got, Lo: int(lo), Hi: int(hi)})
+					case w == 4:
+						lo := done["LAST"].Load()
+						m, found, err := db.Center.LastBlockMap()
+						hi := started["LAST"].Load()
+
+						if err != nil {
+							fail(errors.WithMessage(err, "LastBlockMap"))
+
+							return false
+						}
+
+						got := -1
+						if found {
+							got = int(m.Manifest().Height().Int64())
+						}
+
+						out.Emit(rEvent{A: "R", R: ri, K: "LBM", Got: got, Lo: int(lo), Hi: int(hi)})
+					case w == 5:
+						lo := done[KeySUF].Load()
+						p, found, err := db.Center.LastSuffrageProof()
+						hi := started[KeySUF].Load()
+
+						if err != nil {
+							fail(errors.WithMessage(err, "LastSuffrageProof"))
+
+							return false
+						}
+
+						got := -1
+						if found {
+							got = int(p.Map().Manifest().Height().Int64())
+						}
+
+						out.Emit(rEvent{A: "R", R: ri, K: "LSP", Got: got, Lo: int(lo), Hi: int(hi)})
+					case w == 6:
+						lo := done["LAST"].Load()
+						if lo < 0 {
+							return true
+						}
+
+						bi, _ := blocks.Load(int(lo))
+						b := bi.(*Block) //nolint:forcetypeassert //...
+						got := int(lo)
+
+						for _, op := range b.Ops {
+							found, err := db.Center.ExistsKnownOperation(op)
+							if err != nil {
+								fail(errors.WithMessage(err, "ExistsKnownOperation"))
+
+								return false
+							}
+
+							if !found {
+								got = -1
+							}
+						}
+
+						out.Emit(rEvent{A: "R", R: ri, K: "KNO", Got: got, Lo: int(lo), Hi: int(started["LAST"].Load())})
+					default:
+						lo := done["LAST"].Load()
+						if lo < 0 {
+							return true
+						}
+
+						hq := lo
+						if lo > 0 && r.Intn(2) == 0 {
+							hq = lo - int64(r.Intn(int(lo)+1))
+						}
+
+						m, found, err := db.Center.BlockMap(base.Height(hq))
+						if err != nil {
+							fail(errors.WithMessage(err, "BlockMap"))
+
+							return false
+						}
+
+						got := -1
+						if found && m.Manifest().Height().Int64() == hq {
+							got = int(lo) // found, as it must be: reported on the scale of lo
+						}
+
+						out.Emit(rEvent{A: "R", R: ri, K: "BM", Got: got, Lo: int(lo), Hi: int(started["LAST"].Load())})
 					}
 
-					out.Emit(rEvent{A: "R", R: ri, K: "KNO", Got: got, Lo: int(lo), Hi: int(started["LAST"].Load())})
-				default:
-					lo := done["LAST"].Load()
-					if lo < 0 {
-						continue
-					}
-
-					hq := lo
-					if lo > 0 && r.Intn(2) == 0 {
-						hq = lo - int64(r.Intn(int(lo)+1))
-					}
-
-					m, found, err := db.Center.BlockMap(base.Height(hq))
-					if err != nil {
-						fail(errors.WithMessage(err, "BlockMap"))
-
-						return
-					}
-
-					got := -1
-					if found && m.Manifest().Height().Int64() == hq {
-						got = int(lo) // found, as it must be: reported on the scale of lo
-					}
-
-					out.Emit(rEvent{A: "R", R: ri, K: "BM", Got: got, Lo: int(lo), Hi: int(started["LAST"].Load())})
+					return true
+				}()
+				if !ok {
+					return
 				}
 
 				if r.Intn(4) == 0 {
